@@ -260,10 +260,10 @@ theorem C06_driver_code_facts :
     -- header was checked; and no store turns a failed rewind into a success (the driver acknowledges a reorg on nil)
     Gen.SyncFacts.downloadLoopOrder.take 2 = ["GetLastFinalizedBlock", "GetEventsByBlockRange"] ∧
     Gen.SyncFacts.errToNil_evmDriver = [] ∧
-    Gen.SyncFacts.errToNil_gerProcessor = ["GetLastProcessedBlock#2"] ∧
-    Gen.SyncFacts.errToNil_l1infoProcessor = ["getLastProcessedBlockWithTx#1"] ∧
-    Gen.SyncFacts.errToNil_bridgeProcessor = ["GetBridges#3", "GetBridgesPaged#5", "GetClaims#3", "GetClaimsPaged#5",
-      "GetLegacyTokenMigrations#4", "fetchTokenMappings#3", "getLastProcessedBlockWithTx#1"] := by decide
+    Gen.SyncFacts.errToNil_gerProcessor = ["GetLastProcessedBlock:?"] ∧
+    Gen.SyncFacts.errToNil_l1infoProcessor = ["getLastProcessedBlockWithTx:row.Scan"] ∧
+    Gen.SyncFacts.errToNil_bridgeProcessor = ["GetBridges:?", "GetBridgesPaged:?", "GetClaims:?", "GetClaimsPaged:?",
+      "GetLegacyTokenMigrations:?", "fetchTokenMappings:?", "getLastProcessedBlockWithTx:row.Scan"] := by decide
 
 /-! ### F5 — the statement at full strength (any interleaving of detector and drivers) is FALSE of the code -/
 
